@@ -427,6 +427,53 @@ struct CommaPunct : std::numpunct<char> {
 };
 inline std::locale const &comma_locale() { static std::locale l(std::locale::classic(), new CommaPunct); return l; }
 
+// The locale dimension: locales assembled from custom facets only (no installed system locale is needed).
+//   dp: decimal point  0 '.'  1 ','  2 other ('\'' unless that is the separator, then ';')
+//   ts: thousands separator  0 ','  1 '.'  2 ' '  3 '\''
+//   grp: grouping  0 ""  1 "\3"  2 "\2"  3 "\3\2"  4 "\1"
+//   names: 1 = truename/falsename changed (JSON spelling of true/false must not depend on it)
+//   extra: bit 0 = a ctype<char> that widens digits to letters, bit 1 = a num_put<char> that prints every number as "#"
+struct LocSpec {
+    int dp = 0, ts = 0, grp = 0, names = 0, extra = 0;
+    char decimal() const { static const char d[] = {'.', ',', '\''}; char c = d[dp % 3]; if (dp % 3 == 2 && sep() == c) c = ';'; return c; }
+    char sep() const { static const char t[] = {',', '.', ' ', '\''}; return t[ts % 4]; }
+    std::string grouping() const { static const char *g[] = {"", "\3", "\2", "\3\2", "\1"}; return g[grp % 5]; }
+    std::string name() const {
+        std::string n = "dp" + std::string(1, decimal()) + " sep" + std::string(1, sep()) + " grp";
+        for (char c : grouping()) n += char('0' + c);
+        if (names) n += " names";
+        if (extra & 1) n += " ctype";
+        if (extra & 2) n += " num_put";
+        return n;
+    }
+    bool is_classic_like() const { return decimal() == '.' && grouping().empty() && !extra; }
+};
+struct SpecPunct : std::numpunct<char> {
+    LocSpec sp;
+    explicit SpecPunct(LocSpec const &s) : sp(s) {}
+    char do_decimal_point() const override { return sp.decimal(); }
+    char do_thousands_sep() const override { return sp.sep(); }
+    std::string do_grouping() const override { return sp.grouping(); }
+    std::string do_truename() const override { return sp.names ? "yes" : "true"; }
+    std::string do_falsename() const override { return sp.names ? "no" : "false"; }
+};
+struct DigitCtype : std::ctype<char> {      // digits are widened to 'A'..'J': any number formatted under this locale is unreadable
+    char do_widen(char c) const override { return (c >= '0' && c <= '9') ? char('A' + (c - '0')) : c; }
+    const char *do_widen(const char *lo, const char *hi, char *to) const override { for (; lo != hi; ++lo, ++to) *to = do_widen(*lo); return hi; }
+};
+struct HashNumPut : std::num_put<char> {
+    iter_type do_put(iter_type out, std::ios_base &, char, double) const override { *out++ = '#'; return out; }
+    iter_type do_put(iter_type out, std::ios_base &, char, long) const override { *out++ = '#'; return out; }
+};
+inline std::locale make_locale(LocSpec const &sp) {
+    std::locale l(std::locale::classic(), new SpecPunct(sp));
+    if (sp.extra & 1) l = std::locale(l, new DigitCtype);
+    if (sp.extra & 2) l = std::locale(l, new HashNumPut);
+    return l;
+}
+// does a 16-significant-digit %g rendering of x show at least four integer digits in non-exponent form (i.e. would digit grouping apply)?
+inline bool groupable(double x) { double a = std::fabs(x); return a >= 1000.0 && a < 1e16; }
+
 // ---- the document oracle ------------------------------------------------------------------------------------------------
 struct Fail { std::string sig, msg; bool ok() const { return sig.empty(); } };
 #define C11_CHECK(cond, sig, msg) do { if (!(cond)) return ::c11::Fail{(sig), std::string(msg) + " [" #cond "]"}; } while (0)
@@ -551,6 +598,7 @@ struct PrngSrc {     // splitmix64, seeded from the value libFuzzer hands to the
 struct GenOpts {
     bool text_numbers = true;     // numbers spelled from a random digit grammar (may overflow); off for API-built trees
     bool avoid_unprintable = false; // API-built trees: keep out of the known defect class (counted in the evidence)
+    int grouped_pct = 0;            // share of numbers with 4..16 integer digits printed in non-exponent form (what digit grouping touches)
     int max_nodes = 40;
 };
 
@@ -611,6 +659,17 @@ struct Gen {
         default: { double d = (double)r.range(-100000, 100000) * std::pow(10.0, r.range(-12, 12)); return d; }
         }
     }
+    // 4..16 integer digits, optionally a short binary fraction, either sign: printed by %.16g without exponent
+    double grouped() {
+        int d = r.range(4, 16);
+        std::string t; t += char('1' + r.range(0, 8));
+        for (int i = 1; i < d; i++) t += chance(25) ? '0' : char('0' + r.range(0, 9));
+        double x = strtod(t.c_str(), 0);
+        if (d <= 12 && chance(35)) { static const double fr[] = {0.5, 0.25, 0.125, 0.75, 0.0625}; x += fr[r.range(0, 4)]; }
+        if (chance(15)) { static const double rnd[] = {1000, 9999, 10000, 100000, 999999, 1000000, 1234567, 1e9, 1e12, 1e15, 9999999999999998.0}; x = rnd[r.range(0, 10)]; }
+        if (chance(40)) x = -x;
+        return x;
+    }
     // number spelled by a digit grammar (strict RFC form); value = strtod of the spelling (may be infinite)
     std::string number_text() {
         std::string t;
@@ -624,7 +683,7 @@ struct Gen {
     Node number() {
         Node n; n.t = T_NUM;
         if (opt.text_numbers && chance(30)) { n.s = number_text(); n.n = strtod(n.s.c_str(), 0); return n; }
-        n.n = dbl();
+        n.n = (opt.grouped_pct && chance(opt.grouped_pct)) ? grouped() : dbl();
         if (opt.avoid_unprintable && prints_out_of_range(n.n)) { VR.excl(SIG_LARGEST); n.n = n.n > 0 ? 1.797693134862315e308 : -1.797693134862315e308; }
         return n;
     }
@@ -659,7 +718,7 @@ struct Gen {
             else {
                 // an element *behind* a deep one makes cppcms copy the whole finished subtree when the vector grows (value's move constructor is
                 // not noexcept): fine for correctness, quadratic along a 500-deep spine, so it is kept rare there
-                w.t = T_ARR; Node s1; s1.t = T_NUM; s1.n = i; w.a.push_back(s1); w.a.push_back(std::move(inner));
+                w.t = T_ARR; Node s1; s1.t = T_NUM; s1.n = (i % 2) ? 1000.0 * (i + 1) : i; w.a.push_back(s1); w.a.push_back(std::move(inner));
                 if (how == 9 && (k <= 40 || chance(2))) { Node s2; s2.t = T_BOOL; w.a.push_back(s2); }
             }
             inner = std::move(w);
